@@ -36,6 +36,7 @@ func siteSig(msg string) string {
 }
 
 func Run(c *vh.Ctx) {
+	defer lexh.RemoveLexDir()
 	var m *vh.Model
 	if c.ModelPath != "" {
 		var err error
@@ -132,7 +133,23 @@ func Run(c *vh.Ctx) {
 				add("construct:prefix", "s", lexh.ConstructPrelude+sn[:cuts[k]], true)
 				add("construct:delete", "s", lexh.ConstructPrelude+sn[:cuts[k-1]]+sn[cuts[k]:], true)
 				add("construct:dup", "s", lexh.ConstructPrelude+sn[:cuts[k]]+sn[cuts[k-1]:], true)
+				for w := 2; w <= 4 && k+w-1 < len(cuts); w++ {
+					// a whole operand or clause (2–4 adjacent tokens) removed
+					add("construct:delete", "s", lexh.ConstructPrelude+sn[:cuts[k-1]]+sn[cuts[k+w-1]:], true)
+				}
 			}
+		}
+		// every operator between literal operands (live, dead and uncalled code): parse-time evaluation
+		for _, src := range lexh.OperatorLiteralPrograms() {
+			add("oplit", "s", src, true)
+		}
+		// nestable constructs at growing depth: the time budget must hold (no doubling per level)
+		depths := []int{4, 8, 12, 16, 20, 24, 32}
+		if c.Thorough() {
+			depths = append(depths, 48, 64, 96, 128)
+		}
+		for _, src := range lexh.NestedPrograms(depths) {
+			add("nest", "s", src, false)
 		}
 		// richer generated programs (classes, match, class-init literals, closures, named / spread
 		// arguments, destructuring, heredoc …): prefixes cut at token boundaries and mutants, all run
